@@ -54,6 +54,17 @@ chk("C19", "hist",
     "3 tags (incl. the nil tag) and 2 texts; for Set on a repeated tag only the stated clauses are demanded.",
     "DESIGN.md §3 C19")
 
+chk("C09", "enum",
+    "bounded-exhaustive enumeration of items and item pairs on the implementation against the laws themselves (reflexivity, nil table, inequality under identity/type/property change in both orders, soundness of 'equal')",
+    "ItemsEqual is executed on every value of the universe against itself and an independently built twin, on the complete 15x15 nil matrix and nil x non-nil in both orders, on id/type variants and single-property changes for every core and activity property x shape x struct, and on all ordered pairs of a sub-universe.",
+    "Reading D4; finite alphabet of shapes and two variants per shape.",
+    "DESIGN.md §3 C09")
+chk("C15", "enum",
+    "complete enumeration of the owner grid x collection names x holder matrix on the implementation against round-trip laws",
+    "72 owners x 8 names: Split(IRIf(o,c)), OfActor(IRI(o)), ValidCollectionIRI, negatives with non-collection segments; holder matrix (4 forms x 8 names x unset/explicit IRI/explicit collection x 6 ids) for Of/IRI/AddTo.",
+    "'Equivalent' is IRI.Equals (C14); actors carry a specific actor type.",
+    "DESIGN.md §3 C15")
+
 manifest = {
     "version": 1,
     "setup_cmd": "./setup.sh",
